@@ -630,6 +630,16 @@ pub fn query<A: HC>(q: &str, t: &mut Toks) -> R<String> {
                     "take" => it.take(arg).collect(),
                     "nthnext" => { let mut it = it; let _ = it.nth(arg); it.collect() }
                     "count" => return Err(it.count()),
+                    "hint" => {
+                        // Iterator contract: size_hint bounds the number of items actually yielded, also after `arg` calls to next()
+                        let mut it = it;
+                        for _ in 0..arg {
+                            let _ = it.next();
+                        }
+                        let (lo, hi) = it.size_hint();
+                        let n = it.count();
+                        return Err(if lo <= n && hi.map_or(true, |h| n <= h) { 1 } else { 0 });
+                    }
                     _ => vec![],
                 })
             }
